@@ -165,6 +165,23 @@ HARNESSES.append(
          checks="memsafe", unwind=4, unwindset=["e2fsck_read_inode_full.0:258", "main.0:4"],
          backends=["default"],
          bound="one 256-byte inode, every byte symbolic, in a heap buffer of exactly 256 bytes; e2fsck -n"))
+import importlib.util as _ilu2, os as _os2
+def _iscan():
+    """the inode scan e2fsck pass 1 uses (EXT2_SF_WARN_GARBAGE_INODES): an inode whose checksum does not verify is reported to the
+    caller -- the verdict consulted belongs to the inode's own block (source harness/C14/iscan_p.c)"""
+    p = _os2.path.join(_os2.path.dirname(_os2.path.abspath(__file__)), "..", "C14", "spec.py")
+    sp = _ilu2.spec_from_file_location("spec_C14_for_C02", p)
+    m = _ilu2.module_from_spec(sp)
+    sp.loader.exec_module(m)
+    for h in m.HARNESSES:
+        if h["name"] == "iscan_p":
+            d = dict(h)
+            d["src"] = "../C14/iscan_p.c"
+            d["configs"] = [c for c in h["configs"] if c.get("_tier") != "thorough"][:1]
+            return [d]
+    raise RuntimeError("C14 iscan_p harness missing")
+HARNESSES += _iscan()
+
 MANIFEST = {
     "text": "Kernel-level slice (partial). Detector completeness against an independent format predicate, bounded-exhaustive: every extent header "
             "violating (magic, entries <= max, max entries fit the node) is rejected by ext2fs_extent_header_verify for every node size; every "
